@@ -31,10 +31,10 @@ func TestC04(t *testing.T) {
 	for i := 0; i < n; i++ {
 		cfg := storeh.Config{
 			Batch: []int{1, 2, 3, 5, 64}[rng.Intn(5)], Cache: []int{4, 5, 8, 512}[rng.Intn(4)], ICache: []int{4, 6, 2048}[rng.Intn(3)],
-			U: 24, NH: rng.Intn(2), ProbeEvery: true, Ranges: 3, CtxDS: rng.Bool(),
+			U: 24, NH: rng.Intn(3), ProbeEvery: true, Ranges: 3, CtxDS: rng.Bool(),
 		}
 		maxOps := 5 + rng.Intn(36)
-		gen := storeh.RandomGen(rng, cfg, storeh.Weights{Append: 70, Delete: 18, Restart: 12, InvalidDelete: 25, FailPct: 0})
+		gen := storeh.RandomGen(rng, cfg, storeh.Weights{Append: 70, Delete: 18, Restart: 12, InvalidDelete: 25, FailPct: 25})
 		res := storeh.Run(t, rng, cfg, maxOps, gen)
 		class := fmt.Sprintf("b%d/c%d/i%d/%v", cfg.Batch, cfg.Cache, cfg.ICache, res.Descr["ops"])
 		w.Add(res.Term, res.Descr, class, res.NonTriv)
